@@ -282,14 +282,39 @@ func runC10b(r *an.Run) {
 		func(o *an.Obl) {
 			f := p.Func("lnwire.WriteMessage")
 			succ := f.StrictSuccessReturns()
-			guardedAll(o, f, succ, an.CmpX(an.LocalNamed("lenp"), an.LE, an.PkgVar("lnwire", "MaxMsgBody"), "payload length <= MaxMsgBody"))
-			// the payload length is everything written after the start minus the type bytes
-			for _, s := range f.Assigns(an.LocalNamed("lenp"), false) {
-				c := f.Canon(s.Node.(*ast.AssignStmt).Rhs[0])
-				o.Site("payload length = %s", c)
-				if !strings.HasPrefix(c, "(($p0.Len() - $p0.Len()) - $p0.Write(") {
-					o.FailAt(f.ID+"#payload-length", s.Where(), "the payload length is computed as %s, expected buf.Len() - oldByteSize - msgTypeBytes", c)
+			// the payload length is identified by what it is computed from
+			// (everything written after the start minus the type bytes), not
+			// by the name of the local holding it: temporaries with a unique
+			// definition are expanded by Canon.
+			payloadLen := canonTerm(`^\(\(\$p0\.Len\(\) - \$p0\.Len\(\)\) - \$p0\.Write\(`)
+			maxBody := an.PkgVar("lnwire", "MaxMsgBody")
+			guardedAll(o, f, succ, an.CmpX(payloadLen, an.LE, maxBody, "payload length <= MaxMsgBody"))
+			// every comparison against MaxMsgBody compares that payload length
+			nCmp := 0
+			ast.Inspect(f.Body, func(n ast.Node) bool {
+				be, ok := n.(*ast.BinaryExpr)
+				if !ok {
+					return true
 				}
+				var other ast.Expr
+				switch {
+				case an.Match(f, maxBody, be.Y):
+					other = be.X
+				case an.Match(f, maxBody, be.X):
+					other = be.Y
+				default:
+					return true
+				}
+				nCmp++
+				c := f.Canon(other)
+				o.Site("payload length = %s", c)
+				if !an.Match(f, payloadLen, other) {
+					o.FailAt(f.ID+"#payload-length", f.Where(be.Pos()), "the payload length is computed as %s, expected buf.Len() - oldByteSize - msgTypeBytes", c)
+				}
+				return true
+			})
+			if nCmp == 0 {
+				o.FailAt(f.ID+"#payload-length", f.Where(f.Body.Pos()), "no comparison of the payload length against MaxMsgBody")
 			}
 			mustPass(o, f, "msg.Encode", f.Calls(an.CalleeNamed("Encode"), false), an.OkErrNil, succ)
 			if v := constValue(p, "lnwire", "MaxMsgBody"); v != "65533" {
